@@ -143,7 +143,7 @@ lemma(
     ["C09"],
     inputs=dict(ny=Int(ge=1), nx=Int(ge=1), rx=OneOf(Real(gt=0), Real(lt=0)), ry=OneOf(Real(gt=0), Real(lt=0)), tx=Real(), ty=Real(), extra_dim=OneOf(None, "time", "band")),
     body=_lemma_roundtrip_aligned,
-    unstub=[f"{MATH}:affine_from_axis", f"{MATH}:data_resolution_and_offset", f"{MATH}:is_affine_st", f"{GBX}:GeoBox.__getitem__"],
+    unstub=[f"{XR}:xr_coords", f"{MATH}:affine_from_axis", f"{MATH}:data_resolution_and_offset", f"{MATH}:is_affine_st", f"{GBX}:GeoBox.__getitem__"],
     note="xarray is a ghost container; float(str(x)) == x for the GeoTransform attribute is assumed; numpy.arange through its model",
     max_paths=400,
 )
@@ -173,7 +173,7 @@ lemma(
     inputs=dict(ny=Int(ge=1), nx=Int(ge=1), A=AFFINE()),
     requires=[lambda A: Or(Abs(A.b) >= 1e-5, Abs(A.d) >= 1e-5)],
     body=_lemma_roundtrip_rotated,
-    unstub=[f"{MATH}:affine_from_axis", f"{MATH}:data_resolution_and_offset", f"{MATH}:is_affine_st"],
+    unstub=[f"{XR}:xr_coords", f"{MATH}:affine_from_axis", f"{MATH}:data_resolution_and_offset", f"{MATH}:is_affine_st"],
     note="rotated / sheared grids: pixel-space labels k + 1/2 (float32: exact below 2**23, assumed) and the transform in the encoding",
     max_paths=400,
 )
@@ -218,7 +218,7 @@ lemma(
         lambda nx, sx, kx, mx, ny, sy, ky, my, i, j: And(_valid_progression(nx, sx, kx, mx), _valid_progression(ny, sy, ky, my), i < mx, j < my),
     ],
     body=_lemma_slice_keeps_world,
-    unstub=[f"{MATH}:affine_from_axis", f"{MATH}:data_resolution_and_offset", f"{MATH}:is_affine_st"],
+    unstub=[f"{XR}:xr_coords", f"{MATH}:affine_from_axis", f"{MATH}:data_resolution_and_offset", f"{MATH}:is_affine_st"],
     note="positional slicing = the same arithmetic sub-progression of every coordinate variable, attrs/encoding kept (assumed of xarray, bounded-checked); at least two remaining pixels per axis (single remaining pixels use the stored full-grid GeoTransform and are exercised by the bounded check only)",
     max_paths=600,
 )
